@@ -16,16 +16,17 @@ def gls_streams(tier, seed):
     quick = tier == "quick"
     out = []
     # exhaustive small scope: all ordered tree shapes x all patterns over {1,0,-1} with a presence
-    full = gl.config_grid([(1, 1), (2, 1), (1, 2), (3, 2)], [0, 1, 2, 9])
-    small = gl.config_grid([(1, 1), (2, 1), (1, 2)], [1, 9], pushes=(True,))
+    full = gl.config_grid([(1, 1), (2, 1), (1, 2), (3, 2), (70, 30)], [0, 1, 2, 9])
+    small = gl.config_grid([(1, 1), (2, 1), (1, 2), (40, 25)], [1, 9], pushes=(True,))
     exh = []
     for n in (2, 3):
         exh += list(gl.exhaustive_gls_cases(n, full))
     if quick:
         c4 = list(gl.exhaustive_gls_cases(4, small))
         exh += c4
-        c5 = list(gl.exhaustive_gls_cases(5, gl.config_grid([(1, 1), (2, 1), (1, 2), (3, 2)], [0, 1, 2, 9])))
-        exh += rng.sample(c5, 2500)
+        c5 = list(gl.exhaustive_gls_cases(5, gl.config_grid([(1, 1), (2, 1), (1, 2), (3, 2), (70, 30), (40, 25), (5, 3)],
+                                                            [0, 1, 2, 9])))
+        exh += rng.sample(c5, 3500)
     else:
         exh += list(gl.exhaustive_gls_cases(4, full))
         exh += list(gl.exhaustive_gls_cases(5, small))
@@ -34,6 +35,9 @@ def gls_streams(tier, seed):
     out.append(("gls_exhaustive", exh, "gls_case", "gls_case_code"))
     nrand = 2500 if quick else 40000
     out.append(("gls_random", [gl.gen_gls_case(rng, 3, 9 if quick else 11) for _ in range(nrand)],
+                "gls_case", "gls_case_code"))
+    # one unresolved node with >= 10 two-leaf clades: more than 1000 combinations of child scenarios
+    out.append(("gls_wide", [gl.gen_gls_wide_case(rng) for _ in range(8 if quick else 60)],
                 "gls_case", "gls_case_code"))
     return out
 
@@ -128,7 +132,7 @@ def main(tier, seed, prop=PROP):
         for name, cases, ctype, cfn in streams(tier, seed, prop):
             st = driver.run_stream(run, gl, cases, d, name, ctype, cfn, prop_bits,
                                    corr_bits=(5,) if cfn == "gls_brute_code" else (0, 8),
-                                   shard=30 if ctype == "phybo_case" else 400)
+                                   shard=30 if ctype == "phybo_case" else (2 if name == "gls_wide" else 400))
             total_prop += st["prop_fail"] + st["impl_errors"]
     except coqrun.CoqError as e:
         run.violation({"kind": "model does not evaluate", "no_longer_checks": "GainLoss/GainLossExec.v",
